@@ -37,6 +37,13 @@ def generate(tier, rng):
     c.add(e)
     for op in ('collect', 'rev', 'count'):
         c.op(e.id, op, op + '/big')
+    # exactly 2^8 enabled variants (and one less / one more): the count itself must fit wherever a cursor is kept
+    for n in (255, 256, 257):
+        e = itercorpus.make_enum('c04n%d' % n, 'EnC04n%d' % n, n, 'none', unit_only=True, derives=['EnumIter', 'EnumCount'], feats=['iter', 'count'])
+        e.extra['no_noise'] = True
+        c.add(e)
+        for op in ('collect', 'rev', 'count'):
+            c.op(e.id, op, op + '/n=%d' % n)
     return c
 
 
